@@ -34,6 +34,9 @@ CONSTANTS NA,        \* number of callers
                      \*   "quit_ignores_inflight": shallQuit clears guarded without requiring inflight = 0;
                      \*   "unguard_after_final_flush": guarded is cleared in the flusher's exit path, after the
                      \*   deferred final Flush, instead of inside shallQuit's lock region
+                     \*   "no_final_flush": the retiring flusher ends without its deferred final Flush (an Add that
+                     \*   lands between the tick's empty Flush and shallQuit's lock region is accepted while
+                     \*   guarded = TRUE, so nobody is started for it: HeldCovered / AllExecuted must fail)
           Fix        \* 0 = code under test; 1 = proposed repair: the flusher decrements inflight only after
                      \*     enterExecution, and Wait lets inflight drain to 0 before waitGroup.Wait()
 
@@ -268,7 +271,7 @@ FQuitChk(f) ==                    \* shallQuit: time test, then a pe.lock region
   /\ pc[f] = "f_quitchk"
   /\ IF stale[f] /\ (inflight = 0 \/ Variant = "quit_ignores_inflight")
        THEN /\ guarded' = IF Variant = "unguard_after_final_flush" THEN guarded ELSE FALSE
-            /\ Goto(f, "fl1")                       \* deferred ticker.Stop(); deferred pe.Flush()
+            /\ Goto(f, IF Variant = "no_final_flush" THEN "f_dead" ELSE "fl1")   \* deferred ticker.Stop(); deferred pe.Flush()
             /\ ret' = [ret EXCEPT ![f] = IF Variant = "unguard_after_final_flush" THEN "f_unguard" ELSE "f_dead"]
        ELSE /\ Goto(f, "f_select") /\ UNCHANGED <<guarded, ret>>
   /\ UNCHANGED <<bat, ip, cur, flok, held, cmd, inflight, barrier, wg, gen, commanded, stale,
